@@ -44,16 +44,24 @@ IMPLS = {
 }
 
 
+def canon_min(e):
+    """min(a, b) in any spelling (a.min(b), cmp::min(a, b), either operand order) as one canonical text"""
+    e = strip_after(e)
+    if e[0] == "call" and re.search(r"(Ord::min|cmp::min)$", e[1]) and len(e[2]) == 2:
+        return "min{%s}" % ", ".join(sorted(show(strip_after(a)) for a in e[2]))
+    return show(e)
+
+
 @PROP.rule("R-C02-1", floor=3, doc="numwant clamp tables with the configured limit as origin")
 def clamps(fx):
     want = {
         "udp": ("aquatic_udp::swarm::PeerMap::announce", "peers_wanted", {
             (("Le(I32::get(request.peers_wanted.0), 0:i32)",), "config.protocol.max_response_peers"),
-            (("!Le(I32::get(request.peers_wanted.0), 0:i32)",), "min(config.protocol.max_response_peers, Result::unwrap(<T as TryInto>::try_into(I32::get(request.peers_wanted.0))))")}),
+            (("!Le(I32::get(request.peers_wanted.0), 0:i32)",), "min{Result::unwrap(<T as TryInto>::try_into(I32::get(request.peers_wanted.0))), config.protocol.max_response_peers}")}),
         "http": ("aquatic_http::workers::swarm::storage::TorrentData::upsert_peer_and_get_response_peers", "numwant", {
             (("request.numwant is None",), "config.protocol.max_peers"),
             (("request.numwant is Some", "(request.numwant as Some).0 == 0"), "config.protocol.max_peers"),
-            (("request.numwant is Some", "(request.numwant as Some).0 not in [0]"), "Ord::min((request.numwant as Some).0, config.protocol.max_peers)")}),
+            (("request.numwant is Some", "(request.numwant as Some).0 not in [0]"), "min{(request.numwant as Some).0, config.protocol.max_peers}")}),
     }
     for tr, (fn, rx, table) in want.items():
         b = fx.fn(fn)
@@ -63,14 +71,14 @@ def clamps(fx):
                 continue
             at = tuple(sym.atom_text(fx, dict(a, discr=strip_after(a["discr"]))) for a in p.atoms if rx in show(a["discr"]))
             for e in p.calls(r"PeerMap::extract_response_peers$"):
-                rows.add((at, show(strip_after(e[2][-1]))))
+                rows.add((at, canon_min(e[2][-1])))
         yield ob("R-C02-1", "clamp#%s" % tr, rows == table, b, None, "limit passed to extract_response_peers: %s" % sorted(rows), {"table": sorted(map(str, rows))})
     b = fx.fn("aquatic_ws::workers::swarm::storage::TorrentData::handle_offers")
     rows = set()
     for p in cpaths(fx, b):
         for e in p.calls(r"storage::extract_response_peers$"):
-            rows.add(tuple(show(strip_after(a)) for a in e[2][:4]))
-    want_ws = {("rng", "self.peers", "Ord::min(Vec::len(offers), config.protocol.max_offers)", "sender_peer_id")}
+            rows.add(tuple(canon_min(a) for a in e[2][:4]))
+    want_ws = {("rng", "self.peers", "min{Vec::len(offers), config.protocol.max_offers}", "sender_peer_id")}
     yield ob("R-C02-1", "clamp#ws", rows == want_ws, b, None, "extract_response_peers(%s)" % sorted(rows), {"args": sorted(map(list, rows))})
 
 
